@@ -3,8 +3,8 @@ amaranth_soc/csr/wishbone.py `WishboneCSRBridge.__init__`, amaranth_soc/wishbone
 its `init` property pair, amaranth_soc/gpio.py `PinMode` (class statement), `PinSignature.__init__`,
 `Peripheral.Mode / Input / Output / Output._FieldAction / SetClr .__init__`, `Peripheral.__init__`, and
 amaranth_soc/csr/action.py every class' `__init__` (R, W, RW, RW1C, RW1S, _Reserved and the four classes that inherit
-it).  Regenerated as monadic Gallina (`comp`, Lib/PyVal.v: return / raise / branch on a boolean) in the code's statement and evaluation order on every run
--> Gen/PeriphGen.v.  Gen/TiePeriph.v proves the generated constructors equal to the models' constructor functions
+it).  Regenerated as monadic Gallina (`comp`, Lib/PyVal.v: return / raise / branch on a boolean) in the code's
+statement and evaluation order on every run -> Gen/PeriphGen.v.  Gen/TiePeriph.v proves the generated constructors equal to the models' constructor functions
 (Model/WbCsrBridge.v construct, Model/Sram.v construct, Model/Gpio.v ctor / place / reg_specs, Model/Actions.v
 has_storage / init_state) for ALL argument values.
 
@@ -18,10 +18,12 @@ Every Python value is a `pv` (coq/Lib/PyVal.v) - the translation is untyped, lik
   object that is not a number (unequal to every number, arithmetic / ordering with it raise TypeError, truthy).
   Operators are the total functions of Lib/PyVal.v (`py_arith`, `py_cmp`, `py_eq`, `py_in`, `py_truth`, ...),
   which return `comp`: `None <= 0` is Raise TypeError, `x // 0` Raise OtherError, `8.0 in (8, 16)` is true, `and` / `or`
-  / conditional expressions evaluate their operands lazily, left to right.
+  / conditional expressions evaluate their operands lazily, left to right; `a or b` may be used for its truth
+  (if / assert / not) with any operands, as a value only when every operand is itself a boolean.
 * tuple / list / dict displays and list comprehensions (one `for`, no `if`) build YTuple / YList / YDict values
   (a comprehension whose element does not mention the loop variable evaluates the element once - if the iterable is
-  not empty - and repeats the value: py_const_comp, or py_repeat when the element is a plain value; otherwise the element is evaluated per item: py_listcomp);
+  not empty - and repeats the value: py_const_comp, or py_repeat when the element is a plain value; otherwise the
+  element is evaluated per item: py_listcomp);
   they are immutable in the translation: any statement that would mutate one (`d[k] = v`, `.append`) aborts, so
   sharing one dict between several list elements is unobservable.  `range(..)` = YRange, iterated by py_iter.
 * descriptor constructors without side effect - `In`, `Out` (imported from amaranth.lib.wiring), `unsigned`,
@@ -324,7 +326,7 @@ class Fn:
             return V(r)
         if isinstance(n, ast.UnaryOp):
             if isinstance(n.op, ast.Not):
-                return V(f"(negb {self.bool(self.ex(n.operand, env, st), st)})", "bool")
+                return V(f"(negb {self.cond(n.operand, env, st)})", "bool")
             if isinstance(n.op, (ast.USub, ast.Invert)):
                 a = self.pv(self.ex(n.operand, env, st), st)
                 r = self.fresh("x")
@@ -332,27 +334,9 @@ class Fn:
                 return V(r)
             raise Untranslatable("unary +")
         if isinstance(n, ast.BoolOp):
-            # value used for its truth only: `a or b` where the result is needed as an object aborts below
-            first = self.bool(self.ex(n.values[0], env, st), st)
-            term = None
-            for v in reversed(n.values[1:]):
-                s2 = St(st.tr)
-                c = self.bool(self.ex(v, env, s2), s2)
-                if s2.tr != st.tr:
-                    raise Untranslatable("foreign call inside the lazily evaluated operand of and / or")
-                if term is None:
-                    inner = f"(Ret {c})"
-                elif isinstance(n.op, ast.Or):
-                    inner = f"(Branch {c} (Ret true)\n  {term})"
-                else:
-                    inner = f"(Branch {c}\n  {term}\n  (Ret false))"
-                term = s2.b.wrap(inner)
-            r = self.fresh("c")
-            if isinstance(n.op, ast.Or):
-                st.b.letm(r, f"(Branch {first} (Ret true)\n  {term})")
-            else:
-                st.b.letm(r, f"(Branch {first}\n  {term}\n  (Ret false))")
-            return V(r, "bool")
+            # as a VALUE `a or b` is one of its operands; that is the boolean computed here only when every operand
+            # is itself a boolean (comparison, isinstance, not ...): anything else aborts
+            return self.boolop(n, env, st, strict=True)
         if isinstance(n, ast.Compare):
             if len(n.ops) != 1:
                 raise Untranslatable("chained comparison")
@@ -377,7 +361,7 @@ class Fn:
                 return V(r if isinstance(op, ast.In) else f"(negb {r})", "bool")
             raise Untranslatable("comparison " + type(op).__name__)
         if isinstance(n, ast.IfExp):
-            c = self.bool(self.ex(n.test, env, st), st)
+            c = self.cond(n.test, env, st)
             r = self.fresh("x")
             st.b.letm(r, f"(Branch {c} {self.sub(st, env, n.body, 'pv')} {self.sub(st, env, n.orelse, 'pv')})")
             return V(r)
@@ -433,6 +417,42 @@ class Fn:
         if isinstance(n, ast.Call):
             return self.call(n, env, st)
         raise Untranslatable("expression " + ast.dump(n)[:100])
+
+    def boolop(self, n, env, st, strict):
+        """`a and b` / `a or b`, operands evaluated lazily left to right; result: its truth value"""
+        def operand(v, s2):
+            x = self.ex(v, env, s2) if not isinstance(v, ast.BoolOp) else self.boolop(v, env, s2, strict)
+            if strict and x.t != "bool":
+                raise Untranslatable("`and` / `or` of non-boolean operands used as a value")
+            return self.bool(x, s2)
+        first = operand(n.values[0], st)
+        term = None
+        for v in reversed(n.values[1:]):
+            s2 = St(st.tr)
+            c = operand(v, s2)
+            if s2.tr != st.tr:
+                raise Untranslatable("foreign call inside the lazily evaluated operand of and / or")
+            if term is None:
+                inner = f"(Ret {c})"
+            elif isinstance(n.op, ast.Or):
+                inner = f"(Branch {c} (Ret true)\n  {term})"
+            else:
+                inner = f"(Branch {c}\n  {term}\n  (Ret false))"
+            term = s2.b.wrap(inner)
+        r = self.fresh("c")
+        if isinstance(n.op, ast.Or):
+            st.b.letm(r, f"(Branch {first} (Ret true)\n  {term})")
+        else:
+            st.b.letm(r, f"(Branch {first}\n  {term}\n  (Ret false))")
+        return V(r, "bool")
+
+    def cond(self, n, env, st):
+        """n in a position where only its truth matters (if / assert / conditional expression test)"""
+        if isinstance(n, ast.BoolOp):
+            return self.boolop(n, env, st, strict=False).s
+        if isinstance(n, ast.UnaryOp) and isinstance(n.op, ast.Not):
+            return f"(negb {self.cond(n.operand, env, st)})"
+        return self.bool(self.ex(n, env, st), st)
 
     def dotted_global(self, n):
         """Attribute chain rooted at a name that is not a local -> its dotted text, else None"""
@@ -673,7 +693,7 @@ class Fn:
             self.ex(s.value, env, st)
             return st.b.wrap(self.block(rest, env, st.tr, k))
         if isinstance(s, ast.Assert):
-            c = self.bool(self.ex(s.test, env, st), st)
+            c = self.cond(s.test, env, st)
             return st.b.wrap(f"(Branch {c}\n  {self.block(rest, env, st.tr, k)}\n  (Raise AssertionError))")
         if isinstance(s, (ast.Assign, ast.AugAssign)):
             if isinstance(s, ast.Assign):
@@ -714,7 +734,7 @@ class Fn:
                 raise Untranslatable("assignment target " + type(t).__name__)
             return st.b.wrap(self.block(rest, env2, st.tr, k))
         if isinstance(s, ast.If):
-            c = self.bool(self.ex(s.test, env, st), st)
+            c = self.cond(s.test, env, st)
             if self.terminates(s.body):
                 dead = lambda e, t: (_ for _ in ()).throw(Untranslatable("unreachable continuation reached"))
                 a = self.block(s.body, env, st.tr, dead)
